@@ -568,6 +568,8 @@ def _adv_refit_hist(draw):
     d2 = {k: ([v[i] for i in keep] if isinstance(v, list) and len(v) == len(d2["g"]) else v) for k, v in d2.items()}
     encs = [[0, 1], ["no", "yes"], [1, 2]]
     d1["yenc"], d2["yenc"] = draw(st.sampled_from(encs)), draw(st.sampled_from(encs))
+    if draw(st.booleans()):  # ... and another number of features
+        d2["X"] = [row[:2] for row in d2["X"]]
     if draw(st.booleans()):
         d1, d2 = d2, d1
     h["D1"], h["D2"] = d1, d2
